@@ -6,6 +6,16 @@
 (* verified here by multiplication.  Physical constants used by the        *)
 (* textbook formulas are held by the specification (CODATA 2014, the set   *)
 (* the library documents).                                                 *)
+(*                                                                         *)
+(* Event kinds: thermo (identities, derivatives, pressure), verbose /      *)
+(* verbose_sel (additivity: modes, references slot, extra models), opt     *)
+(* (use_references x S_elements x units), missing (raise_error x           *)
+(* raise_warning per getter), energy (get_EoRT / get_E x include_ZPE),     *)
+(* argtype (T, P as int / numpy scalars), routed (keyword routing, presets *)
+(* = instances), harmonic / qrrho / einstein / debye / rotor / trans /     *)
+(* elec / lsr (closed forms), pointgroup, geometry.  Which mode kind lacks *)
+(* or refuses which quantity is read from StatMechSig.tla, the table the   *)
+(* design model StatMech.tla is checked against.                           *)
 (***************************************************************************)
 EXTENDS Dec, StatMechSig, TLC, TLCExt, Json, IOUtils
 
@@ -347,25 +357,33 @@ ArgTypeClauses(e) ==
 RoutedClauses(e) ==
    Chk(\A i \in Idx(e.rows) : e.rows[i].a = e.rows[i].b, "RoutedEqualsInstances")
 
-\* ---- linear scaling relation used as the electronic model: U R T = slope dE_ref + intercept + E_surf + E_gas
-\* (kcal/mol).  e.sub = what the reference reaction, the surface and the gas species held by the relation
-\* report; for inputs given as objects (e.objects) those are tied to the logged ground-state energies (eV):
-\* E_kcal kB = E_eV R_kcal
+\* ---- linear scaling relation used as the electronic model (LSR: one reference term; ExtendedLSR: several):
+\*    U R T = sum_t (slope_t dE_ref,t + E_surf,t + E_gas,t) + intercept      (kcal/mol)
+\* t.sub = what the reference reaction, the surface and the gas object held by the relation report.  A
+\* component given as an object is tied to the logged ground-state energies (eV): E_kcal kB = E_eV R_kcal.
+\* A component given as a float (kcal/mol, t.fR / t.fS / t.fG) goes through the library's unit tables
+\* (kcal/mol -> eV/molecule -> R), whose tabulated roundings (C12) differ by 8e-5: only the composition is judged
+\* for those, plus "a zero stays zero".
 LsrClauses(e) ==
    LET kT == Mul(RKcal, e.T)
-       t1 == Mul(e.slope, e.sub[1])
-       comp == Add(Add(t1, e.intercept), Add(e.sub[2], e.sub[3]))
-       pr == [i \in Idx(e.eP) |-> Mul(e.nP[i], e.eP[i])]
-       rr == [i \in Idx(e.eR) |-> Mul(e.nR[i], e.eR[i])]
-       dE == Sub(SumSeq(pr), SumSeq(rr))
-       scl == {Mul(x, RKcal) : x \in SetOf(pr) \cup SetOf(rr)}
-   IN Chk(CloseIn(Mul(e.U, kT), comp, {t1, e.intercept, e.sub[2], e.sub[3]}, 6), "LSRLinearScaling")
+       T_ == e.terms
+       contrib == [i \in Idx(T_) |-> Add(Mul(T_[i].slope, T_[i].sub[1]), Add(T_[i].sub[2], T_[i].sub[3]))]
+       scl == UNION {{Mul(T_[i].slope, T_[i].sub[1]), T_[i].sub[2], T_[i].sub[3]} : i \in Idx(T_)} \cup {e.intercept}
+       comp == Add(SumSeq(contrib), e.intercept)
+       refOK(t) ==
+          LET pr == [i \in Idx(t.eP) |-> Mul(t.nP[i], t.eP[i])]
+              rr == [i \in Idx(t.eR) |-> Mul(t.nR[i], t.eR[i])]
+              dE == Sub(SumSeq(pr), SumSeq(rr))
+              s1 == {Mul(x, RKcal) : x \in SetOf(pr) \cup SetOf(rr)}
+          IN /\ t.rxnObj => CloseIn(Mul(t.sub[1], KB), Mul(dE, RKcal), s1, 6)
+             /\ t.surfObj => Close(Mul(t.sub[2], KB), Mul(t.eS, RKcal), 6)
+             /\ t.gasObj => Close(Mul(t.sub[3], KB), Mul(t.eG, RKcal), 6)
+             /\ (~t.rxnObj /\ IsZero(t.fR)) => IsZero(t.sub[1])
+             /\ (~t.surfObj /\ IsZero(t.fS)) => IsZero(t.sub[2])
+             /\ (~t.gasObj /\ IsZero(t.fG)) => IsZero(t.sub[3])
+   IN Chk(Len(T_) = e.nterms /\ CloseIn(Mul(e.U, kT), comp, scl, 6), "LSRLinearScaling")
       \cup Chk(IsZero(e.S) /\ IsZero(e.Cv) /\ IsZero(e.Cp) /\ e.H = e.U /\ e.F = e.U /\ e.G = e.U, "LSRNoEntropy")
-      \cup (IF e.objects
-            THEN Chk(/\ CloseIn(Mul(e.sub[1], KB), Mul(dE, RKcal), scl, 6)
-                     /\ Close(Mul(e.sub[2], KB), Mul(e.eS, RKcal), 6)
-                     /\ Close(Mul(e.sub[3], KB), Mul(e.eG, RKcal), 6), "LSRReferenceEnergies")
-            ELSE {})
+      \cup Chk(\A i \in Idx(T_) : refOK(T_[i]), "LSRReferenceEnergies")
 
 \* geometry: derived parameters before (a) and after (b) a rigid motion / permutation
 GeomClauses(e) ==
